@@ -215,20 +215,22 @@ def r5_result(ctx):
     rg = [(bi, t) for bi, t in f.calls_to('proto::error::Error::remote_go_away')]
     r.check(len(rg) == 1, 'remote|site', f.file, 'take_error builds Error::remote_go_away once')
     oks = [bi for bi, si, pl, rv, ln in f.stmts() if pl == [0] and rv[0] == 'aggr' and rv[2].endswith('Result::Ok')]
-    # Ok only when both reasons are NO_ERROR: dominated by two comparisons with const 0
-    zero = []
+    # Ok only when both reasons are NO_ERROR: dominated by a NO_ERROR test of ours AND one of theirs
+    ours, theirs = [], []
     for bi, sw in core.all_switches(F, f).items():
+        edges0 = []
         if sw.kind == 'int':
-            for s, l in sw.labels.items():
-                if l == 0:
-                    zero.append((bi, s))
-        if sw.kind == 'cmp' and sw.subject[1] == 'Eq' and any(c[1] == 0 for c in core.consts_in(sw.subject)):
-            for s, l in sw.labels.items():
-                if l is True:
-                    zero.append((bi, s))
-    distinct = set(a for a, b in zero)
-    ok = bool(oks) and len(distinct) >= 2 and all(f.dominated_by_edges(o, zero) for o in oks)
-    r.check(ok, 'ok-only-when-both-no-error', f.file, 'Ok(()) is dominated by NO_ERROR tests (%d switch(es))' % len(distinct))
+            edges0 = [(bi, s) for s, l in sw.labels.items() if l == 0]
+        elif core.cmp_of(sw) is not None and core.cmp_of(sw)[0] == 'Eq' and any(c[1] == 0 for c in core.consts_in(sw.subject)):
+            edges0 = [(bi, s) for s, l in sw.labels.items() if l is True]
+        if not edges0:
+            continue
+        if any(x == ('arg', 2) for x in walk(sw.subject)):
+            ours += edges0
+        else:
+            theirs += edges0
+    ok = bool(oks) and bool(ours) and bool(theirs) and all(f.dominated_by_edges(o, ours) and f.dominated_by_edges(o, theirs) for o in oks)
+    r.check(ok, 'ok-only-when-both-no-error', f.file, 'Ok(()) is dominated by a NO_ERROR test of our reason (%d edge(s)) and of the peer\'s reason (%d edge(s))' % (len(ours), len(theirs)))
     for bi, t in rg:
         e0 = f.expr_of_op(t['a'][0])
         e1 = f.expr_of_op(t['a'][1])
